@@ -1,7 +1,7 @@
 (* Driver for the expander cluster: ExpandSpec and friends on in-memory documents. *)
 From Coq Require Import List String Ascii ZArith Bool.
 From Spec Require Import Base.Json Base.Url Codec.Types Codec.Gen_Tables Codec.Codec Expand.Expand
-  Expand.ExpandSimCheck Expand.ExpandCycle Expand.ExpandTermG Expand.ExpandComplete Extract.DriverBase.
+  Expand.ExpandSimCheck Expand.ExpandCycle Expand.ExpandElem Expand.ExpandTermG Expand.ExpandComplete Expand.ExpandSpecSim Extract.DriverBase.
 Import ListNotations.
 Local Open Scope string_scope.
 
@@ -83,7 +83,16 @@ Definition run_expand (c : json) : json :=
                     let nodes := collect gen_env docs' "/" 600 starts [] in
                     let o := opts_of c in
                     let ordered := topo gen_env docs' "/" 60 nodes [] in
+                    (* the specification-level theorem (C02_expand_spec_preserves_meaning): elements, chains, path items, root *)
+                    let rm := match nd with JObj m => m | _ => [] end in
+                    let enodes := collect_e gen_env docs' "/" 600 (root_items root rm) [] in
+                    let nodes2 := collect gen_env docs' "/" 800 (schema_starts root rm enodes) [] in
+                    let bad0 := def_keys rm in
+                    let spec_ok := check_nodes gen_env docs' "/" o root "" nodes2 && check_enodes gen_env docs' "/" enodes nodes2
+                                   && check_chains gen_env docs' "/" nodes2 enodes bad0 (ranks_of gen_env docs' "/" enodes)
+                                   && check_pis enodes && check_root root nodes2 enodes bad0 rm in
                     JObj [("domain", JBool true); ("nodes", JNum (Z.of_nat (List.length nodes)) 0);
+                          ("enodes", JNum (Z.of_nat (List.length enodes)) 0); ("spec_hyps", JBool spec_ok);
                           ("refs", JNum (Z.of_nat (List.length (refs_of nodes))) 0);
                           ("check_nodes", JBool (check_nodes gen_env docs' "/" o root "" nodes));
                           ("resolvable", JBool (check_resolvable gen_env docs' "/" o root "" nodes));
